@@ -128,11 +128,11 @@ def run (s : Sexp) : String :=
                   else "spec-diverged"
       if truthinessGate then
         let m := out gated
-        let trig := (if m.2 then ["F-C15-1"] else []) ++ (if gated != ops then ["F-C15-2"] else [])
+        let trig := (if m.2 then ["F-C15-3"] else []) ++ (if gated != ops then ["F-C15-2"] else [])
         s!"model={m.1}\tspec={spec}\ttrig={",".intercalate trig}\tmodel_fixed={(out ops).1}"
       else
         let m := out ops
-        s!"model={m.1}\tspec={spec}\ttrig={if m.2 then "F-C15-1" else ""}\tbefore_fix={(out gated).1}"
+        s!"model={m.1}\tspec={spec}\ttrig={if m.2 then "F-C15-3" else ""}\tbefore_fix={(out gated).1}"
     | _, _, _ => "error=bad-case"
   | _ => "error=bad-case"
 
